@@ -1,6 +1,21 @@
+import os
 import sys
 
 from vlib import monitor
 
 if __name__ == "__main__":
-    monitor.worker_main(sys.argv[1], sys.argv[2], sys.argv[3])
+    cov = None
+    if os.environ.get("VERIF_COVERAGE_DIR"):
+        # development aid (tools/library_coverage.sh): which library lines do the workloads reach?  never used by a registered check
+        import coverage
+
+        repo = os.environ.get("VERIF_REPO", "/repo")
+        cov = coverage.Coverage(data_file=os.path.join(os.environ["VERIF_COVERAGE_DIR"], ".coverage"), data_suffix=True,
+                                source=[os.path.join(repo, "ad_afqmc")])
+        cov.start()
+    try:
+        monitor.worker_main(sys.argv[1], sys.argv[2], sys.argv[3])
+    finally:
+        if cov is not None:
+            cov.stop()
+            cov.save()
